@@ -294,10 +294,91 @@ def r4(tree, rep):
     race_discipline(tree, rep, rule="C20.R4")
 
 
+def r5(tree, rep, tier):
+    """a `connection-hints` message is handled in every state it can arrive in: the peer decides when it sends one, so every Manager state
+    between the Dilator's gate (versions delivered: the initial state is left) and stop() (Boss closing: nothing is delivered any more)
+    declares rx_HINTS, and each such row either ignores the message or hands it to the hint parser; in the two-party product (engine A5)
+    no rx_HINTS is undeclared where an honest peer's hints are still in flight"""
+    from ..automat_x import Program
+    prog = Program(tree)
+    M = prog.machine("Manager")
+    if "rx_HINTS" not in M.inputs:
+        raise AnalysisError("Manager input rx_HINTS not found")
+    rows = M.rows_on("rx_HINTS")
+    user_outputs = {o for r in rows for o in r.outputs}
+    n = 0
+    for st, d in M.states.items():
+        if st == M.initial or d["terminal"]:
+            continue
+        n += 1
+        r = M.row(st, "rx_HINTS")
+        rep.check("C20.R5", "Manager %s declares rx_HINTS (a hints message may arrive there)" % st, r is not None,
+                  (r.site if r is not None else site(d["node"], MGR)), key="C20.R5:Manager[%s].rx_HINTS" % st,
+                  what="a connection-hints message that arrives while the Manager is %s raises NoTransition out of received_dilation_message "
+                       "(the peer chooses when it sends hints; an honest peer's earlier hints may still be in flight)" % st)
+        if r is not None:
+            rep.check("C20.R5", "Manager %s.rx_HINTS stays in %s" % (st, st), r.enter == st, r.site, key="C20.R5:Manager[%s].rx_HINTS:stays" % st,
+                      what="a hints message moves the Manager from %s to %s: the peer can drive the connection state machine with hint messages" % (st, r.enter))
+    if n < 3:
+        raise AnalysisError("Manager has fewer live states than expected")
+    from .. import a5common
+    sums = a5common.explorations(tree, tier, rep)
+    a5common.fill_extra(rep, sums)
+    for envname, s in sums.items():
+        bad = [v for v in s.viol if v["kind"] == "NoTransition" and v["detail"].endswith(".rx_HINTS")]
+        rep.check("C20.R5", "two-party environment '%s': no hints message in flight meets a Manager state without an rx_HINTS row" % envname, not bad,
+                  bad[0]["site"] if bad else None, key="C20.R5:two-party:%s" % envname,
+                  what="%s is reachable with an honest peer (trace %s)" % (bad[0]["detail"] if bad else "?", bad[0]["path"] if bad else "?"))
+
+
+def r6(tree, rep):
+    """what this side advertises is its own: get_connection_hints reads no attribute that add_connection_hints (peer input) writes, so a
+    peer's relay / direct hints are never re-advertised as ours (and dialled by the peer as plain TCP targets)"""
+    TR = "src/wormhole/transit.py"
+    add = tree.func(TR, "Common", "add_connection_hints")
+    get = tree.func(TR, "Common", "get_connection_hints")
+    written = set()
+    for n in ast.walk(add):
+        if isinstance(n, ast.Call) and isinstance(n.func, ast.Attribute) and is_self_attr(n.func.value) \
+                and n.func.attr in ("append", "add", "extend", "update", "insert", "appendleft"):
+            written.add(n.func.value.attr)
+        elif isinstance(n, (ast.Assign, ast.AugAssign)):
+            for t in (n.targets if isinstance(n, ast.Assign) else [n.target]):
+                if is_self_attr(t):
+                    written.add(t.attr)
+                elif isinstance(t, ast.Subscript) and is_self_attr(t.value):
+                    written.add(t.value.attr)
+    if not written:
+        raise AnalysisError("Common.add_connection_hints stores nothing")
+    read = set()
+    seen = set()
+
+    def reads(fn, depth=3):
+        if fn is None or id(fn) in seen or depth == 0:
+            return
+        seen.add(id(fn))
+        for n in ast.walk(fn):
+            if is_self_attr(n) and isinstance(n.ctx, ast.Load):
+                read.add(n.attr)
+            if isinstance(n, ast.Call) and is_self_attr(n.func):
+                try:
+                    reads(tree.func(TR, "Common", n.func.attr), depth - 1)
+                except AnalysisError:
+                    pass
+    reads(get)
+    both = sorted(written & read)
+    rep.check("C20.R6", "Common.get_connection_hints reads none of the attributes add_connection_hints fills from peer input (%s)" % sorted(written),
+              not both, site(get, TR), key="C20.R6:get_connection_hints:own-hints-only",
+              what="get_connection_hints builds the advertised hints from %s, which add_connection_hints fills with the peer's hints: they are "
+                   "re-advertised as this side's own relays (the peer dials targets this side never produced)" % both)
+
+
 def run(tree, rep, tier):
     r1_r2(tree, rep)
     r3(tree, rep, _namedtuples(tree))
     r4(tree, rep)
+    r5(tree, rep, tier)
+    r6(tree, rep)
 
 
 MUTANTS = [
